@@ -45,6 +45,9 @@ func init() {
 		if f := os.Getenv("TA_TRACE"); f != "" {
 			os.WriteFile(f, []byte(strings.Join(run.Tracer.Lines, "\n")+"\n"), 0o644)
 		}
+		if run.Final != "complete" {
+			fmt.Fprintln(os.Stderr, "class:", classifyRuntimeError(run.Final, run.ErrMsg))
+		}
 		outs, err := run.TopOuts()
 		fmt.Fprintln(os.Stderr, "final:", run.Final, run.ErrMsg, "outs:", string(outs), err, "events:", len(run.Events), "trace lines:", len(run.Tracer.Lines))
 	})
